@@ -164,7 +164,8 @@ func backpropAcrossReturn(rootNode *RootAssertionNode, node *ast.ReturnStmt) err
 	}
 
 	if len(node.Results) == 1 {
-		if call, ok := node.Results[0].(*ast.CallExpr); ok {
+		// The call can be parenthesized (e.g., `return (f())`), even if it is multiply returning.
+		if call, ok := ast.Unparen(node.Results[0]).(*ast.CallExpr); ok {
 			var fident *ast.Ident
 
 			handleIdent := func(fun *ast.Ident) (hasFuncObj bool) {
